@@ -59,7 +59,16 @@ def main(argv=None):
         else:
             mod.run(ctx)
     except core.HarnessError as e:
-        core.fatal(f"{pid}: {e}")
+        # a vacuity / set-up complaint raised AFTER genuine unlisted violations were found is a consequence of the
+        # broken tree, not a reason to discard them: report the violations (exit 1) and mention the complaint
+        known = core.Known()
+        if not any(known.match(pid, k) is None for k in ctx.violations):
+            core.fatal(f"{pid}: {e}")
+        ctx.log(f"harness complaint after violations were found (reported anyway): {e}")
+        for k, dflt in (("states", 1), ("transitions", 1), ("traces_validated_against_impl", 1), ("evaluations", 1),
+                        ("distinct_nontrivial", 2), ("executions", 1)):
+            ctx.cov.setdefault(k, dflt)
+        ctx.cap(f"harness complaint after violations: {e}")
     except Exception as e:
         core.fatal(f"{pid}: harness crashed: {e!r}")
     rc = core.finish(ctx)
